@@ -1,0 +1,81 @@
+//go:build verif
+
+package rule
+
+import "unsafe"
+
+// VerifTables is a copy of the package's lookup tables in plain types.
+type VerifTables struct {
+	Operators          map[string]uint32
+	Fields             map[string]uint32
+	Comparisons        map[uint32]map[uint32]uint32
+	ReverseSyscall     map[string]map[string]int
+	ReverseArch        map[string]uint32
+	ReverseOperators   map[uint32]string
+	ReverseFields      map[uint32]string
+	ReverseComparisons map[uint32][2]uint32
+}
+
+// VerifGetTables returns the lookup tables as built by init().
+func VerifGetTables() VerifTables {
+	t := VerifTables{
+		Operators:          map[string]uint32{},
+		Fields:             map[string]uint32{},
+		Comparisons:        map[uint32]map[uint32]uint32{},
+		ReverseSyscall:     reverseSyscall,
+		ReverseArch:        reverseArch,
+		ReverseOperators:   map[uint32]string{},
+		ReverseFields:      map[uint32]string{},
+		ReverseComparisons: map[uint32][2]uint32{},
+	}
+	for k, v := range operatorsTable {
+		t.Operators[k] = uint32(v)
+	}
+	for k, v := range fieldsTable {
+		t.Fields[k] = uint32(v)
+	}
+	for l, m := range comparisonsTable {
+		t.Comparisons[uint32(l)] = map[uint32]uint32{}
+		for r, c := range m {
+			t.Comparisons[uint32(l)][uint32(r)] = uint32(c)
+		}
+	}
+	for k, v := range reverseOperatorsTable {
+		t.ReverseOperators[uint32(k)] = v
+	}
+	for k, v := range reverseFieldsTable {
+		t.ReverseFields[uint32(k)] = v
+	}
+	for k, v := range reverseComparisonsTable {
+		t.ReverseComparisons[uint32(k)] = [2]uint32{uint32(v[0]), uint32(v[1])}
+	}
+	return t
+}
+
+// VerifLayout describes the in-memory layout of auditRuleHeader, which
+// toWireFormat/fromWireFormat copy to and from the wire.
+type VerifLayout struct {
+	HeaderSize, Flags, Action, FieldCount, Mask, Fields, Values, FieldFlags, BufLen int
+	MaskWords, MaxFields, MaxKeyLength, PathMax, KeySeparator                       int
+}
+
+// VerifGetLayout returns the layout and limits compiled into the package.
+func VerifGetLayout() VerifLayout {
+	var h auditRuleHeader
+	return VerifLayout{
+		HeaderSize:   ruleHeaderSize,
+		Flags:        int(unsafe.Offsetof(h.Flags)),
+		Action:       int(unsafe.Offsetof(h.Action)),
+		FieldCount:   int(unsafe.Offsetof(h.FieldCount)),
+		Mask:         int(unsafe.Offsetof(h.Mask)),
+		Fields:       int(unsafe.Offsetof(h.Fields)),
+		Values:       int(unsafe.Offsetof(h.Values)),
+		FieldFlags:   int(unsafe.Offsetof(h.FieldFlags)),
+		BufLen:       int(unsafe.Offsetof(h.BufLen)),
+		MaskWords:    len(h.Mask),
+		MaxFields:    len(h.Fields),
+		MaxKeyLength: maxKeyLength,
+		PathMax:      pathMax,
+		KeySeparator: keySeparator,
+	}
+}
